@@ -45,12 +45,18 @@ META = {
                   "every served cache hit is judged against an independent state-vector reference of both tapes.",
     "level_note": "Reference = numpy einsum simulator on the tape the cache saw (matrices from the documented-formula table where "
                   "tabulated, otherwise qp.matrix), validated per tape against an individual cache-off execution; tapes it cannot model "
-                  "fall back to individual cache-off executions (counted as ref_real_only). Only default.qubit, shots=None results are "
-                  "compared (finite-shot tapes only take part in the hit analysis). Tolerance 1e-9*max(1,|ref|).",
+                  "(eigvals measurements, BasisState first, >12 wires) fall back to individual cache-off executions (counters hit_reference.*). "
+                  "Only default.qubit, shots=None results are compared (finite-shot tapes only take part in the hit analysis). Tolerance "
+                  "1e-9*max(1,|ref|). Pairs that differ only by <= 1e-10 in parameters (the key's documented 10-digit rounding) are accepted "
+                  "hits; where their results still differ (fractional matrix power at a branch cut) the case is recorded under "
+                  "rounding_hits_at_discontinuity, not as a violation. Witnesses are throttled to 2 per (monitor, mechanism) and shard so "
+                  "that frequent known mechanisms cannot crowd out a fresh one; all are counted (counters violations.*). Not driven: "
+                  "gradients/hessians computed through the cache (forward results only), BasisState with >= 1000 entries (not "
+                  "constructible), devices other than default.qubit.",
     "shards": {"quick": 4, "thorough": 8},
     "budget_s": {"quick": 45, "thorough": 230},
-    "min_evals": {"quick": 1500, "thorough": 20000},
-    "min_nontrivial": {"quick": 80, "thorough": 1000},
+    "min_evals": {"quick": 3000, "thorough": 40000},
+    "min_nontrivial": {"quick": 200, "thorough": 2000},
     "deciding": ["cache.differential", "cache.hit_semantics"],
     "rule": "case = one batch (or one history of batches / QNode calls sharing a cache) built from a random base circuit plus planted "
             "variants; distinct = fingerprint of all tapes' deep structure; non-trivial = the recording cache actually served >= 1 hit",
@@ -1237,7 +1243,7 @@ def run(ctx):
     rec = Recorder()
     rec.install()
     J = Judge(ctx, qp, gen, rec)
-    N = ctx.n(700, 60000)
+    N = ctx.n(2000, 80000)
     try:
         for local in range(N):
             idx = local * ctx.nshards + ctx.shard
